@@ -37,6 +37,18 @@ CLAIMED = {
         "writes, set_len(0)); block size 40960 (fs block 4096).",
    technique="Coq refinement proof (invariant by induction over operation lists) + regenerated layout constants + differential correspondence",
    design="7 (C17)"),
+ "C18": dict(
+   text="Props/C18.v: the full-strength statement (every snapshot decodes exactly the version it is entitled to, for any chain of "
+        "updates/deletes/trims by any transactions) is refuted on the faithful model (C18_refuted: updates are not stamped with the "
+        "updater - recorded known finding, pinned by a repository test); C18_outside_known proves it for all schemas, rows, chains and "
+        "snapshots when every update is made by the row's creator, plus history integrity of the reverse deltas (apply_delta inverts "
+        "add_version) and correctness of the latest version; C18_vacuum_preserves: trimming with any horizon never changes what any "
+        "snapshot or the latest-version reader decodes, for every row the engine can build.",
+   note="Trusted: Coq kernel; the model is logical (values, NULL bitmaps, deltas) - byte offsets and alignment of the layout are "
+        "exercised through build/add_version/decode on all column types and compared value by value with the model and with an "
+        "independent list-of-versions oracle (this found and fixed three byte-level/visibility defects); snapshots are explicit values.",
+   technique="Coq proof (refutation + theorem outside a syntactic known class, invariant over event lists) + differential correspondence",
+   design="7 (C18)"),
 }
 NOT_YET = "not claimed yet: model and proofs under construction in this session (see DESIGN.md section 10, build order)"
 
